@@ -20,6 +20,7 @@ def parseKV (cfg : Cfg × Bool) (tok : String) : Option (Cfg × Bool) :=
   | ["wstall", v] => some ({ cfg.1 with wstall := parseBool v }, cfg.2)
   | ["think", v] => v.toNat?.map fun x => ({ cfg.1 with think := x }, cfg.2)
   | ["buf", v] => v.toNat?.map fun x => ({ cfg.1 with bufsize := x }, cfg.2)
+  | ["https", v] => some ({ cfg.1 with https := parseBool v }, cfg.2)
   | ["cd", v] => some ({ cfg.1 with closeDelim := parseBool v }, cfg.2)
   | ["co", v] => some (cfg.1, parseBool v)
   | _ => none
@@ -37,6 +38,7 @@ def parseEv (s : String) : Option Ev :=
   | "XL" => some .cancelLate
   | _ =>
     if s.startsWith "K" then (s.drop 1).toNat?.map Ev.connDone
+    else if s.startsWith "T" then (s.drop 1).toNat?.map Ev.tlsDone
     else if s.startsWith "B" then
       match ((s.drop 1).toString.splitOn ".").mapM (·.toNat?) with
       | some [n, hd, bb, eof] => some (.bytes { n := n, headDone := hd == 1, bodyBytes := bb, eof := eof == 1 })
